@@ -1,6 +1,6 @@
 (* C08 - property theorems only. *)
 From Coq Require Import Reals List String Bool Lra Lia Arith.
-From PP Require Import C08.Unique Gen.StartValueUses C08.KernelMono.
+From PP Require Import Kern.RBool C08.Unique Gen.StartValueUses C08.KernelMono C08.GasLaw Gen.KHydCompNp Gen.KHydCompNb Gen.KCalcLambda.
 Import ListNotations.
 Open Scope R_scope.
 
@@ -56,6 +56,48 @@ Theorem incomp_nikuradse_law_strictly_monotone_numba :
     strictly_increasing (incomp_phi_nb A D eta k L zeta PL dl dh p_to p_from rho).
 Proof. exact KernelMono.incomp_nikuradse_law_strictly_monotone_numba. Qed.
 Print Assumptions incomp_nikuradse_law_strictly_monotone_numba.
+
+(* Gases (isothermal, constant compressibility K, level pipes without lift): the uniqueness theorems hold
+   for branch laws written in a transform g of the pressure that is injective on the pressures that occur
+   (g p = p * p on absolute pressures p > 0) ... *)
+Theorem hydraulic_unique_in_transformed_pressures :
+  forall n slack pfix load bs (g : R -> R) p p' ms ms' (dom : R -> Prop),
+    in_range n bs -> Forall (fun b => strictly_increasing (phi b)) bs ->
+    solves n slack (fun i => g (pfix i)) load bs (fun i => g (p i)) ms ->
+    solves n slack (fun i => g (pfix i)) load bs (fun i => g (p' i)) ms' ->
+    (forall x y, dom x -> dom y -> g x = g y -> x = y) -> (forall i, dom (p i) /\ dom (p' i)) ->
+    ms = ms' /\ forall i, Reach n slack bs i -> p i = p' i.
+Proof.
+  intros n slack pfix load bs g p p' ms ms' dom Hr Hm S S' Hinj Hdom. split.
+  - exact (transformed_flows_unique n slack pfix load bs g p p' ms ms' Hr Hm S S').
+  - exact (transformed_pressures_unique n slack pfix load bs g p p' ms ms' Hr Hm S S' dom Hinj Hdom).
+Qed.
+Print Assumptions hydraulic_unique_in_transformed_pressures.
+
+(* ... and the generated compressible kernel (numpy and numba) with the gas-form Nikuradse friction factor of
+   calc_lambda is exactly such a law in squared absolute pressures, with a strictly increasing right-hand side. *)
+Theorem gas_law_is_squared_pressure_law_strictly_monotone :
+  forall A D eta k L zeta K t_from t_out rho_n,
+    0 < A -> 0 < D -> 0 < eta -> 0 < rho_n -> 0 < K -> 0 < t_from + t_out ->
+    2 * log10 (D / k) + 57 / 50 <> 0 -> 0 <= L -> 0 <= zeta -> 0 < L + zeta ->
+    (forall dK dK1 dl rho p_to p_from m, 0 < p_from + p_to ->
+       (hyd_comp_np_load_vec A D L zeta m 0 t_out K dK dK1 dl 0 (calc_lambda_comp_np_lambda_tot A D eta k m)
+                             t_from p_to p_from rho rho_n = 0
+        <-> p_from * p_from - p_to * p_to = gas_phi_np A D eta k L zeta K t_from t_out rho_n m) /\
+       (hyd_comp_nb_load_vec A D L zeta m 0 t_out K dK dK1 dl 0 (calc_lambda_comp_nb_lambda_tot A D eta k m)
+                             t_from p_to p_from rho rho_n = 0
+        <-> p_from * p_from - p_to * p_to = gas_phi_nb A D eta k L zeta K t_from t_out rho_n m)) /\
+    strictly_increasing (gas_phi_np A D eta k L zeta K t_from t_out rho_n) /\
+    strictly_increasing (gas_phi_nb A D eta k L zeta K t_from t_out rho_n).
+Proof.
+  intros A D eta k L zeta K t_from t_out rho_n HA HD He Hrn HK Htm Hs HL Hz HLz. split; [|split].
+  - intros dK dK1 dl rho p_to p_from m Hp. split.
+    + now apply gas_residual_is_squared_law_np.
+    + now apply gas_residual_is_squared_law_nb.
+  - now apply gas_mono_np.
+  - now apply gas_mono_nb.
+Qed.
+Print Assumptions gas_law_is_squared_pressure_law_strictly_monotone.
 
 (* non-vacuity: a meshed two-loop network with parallel branches and a linear law has a solution *)
 Definition lin (k : R) : R -> R := fun m => k * m.
